@@ -156,6 +156,8 @@ double MetaOptimizer::doStep()
         cout << endl;
 
       getParameters_().matchParametersValues(opt.getParameters());
+      // A single step() may leave the function on a trial point:
+      getFunction()->setParameters(getParameters());
     }
     tolTest += nbParameters_[i] > 0 ? 1 : 0;
   }
